@@ -115,11 +115,40 @@ CHECKS = {
         "solutions). Every run computes the exact ends with the model in Q, certifies them extremal with LP-dual multipliers "
         "(exactly tight), and compares dreye's (Xmin, Xmax, spaced solutions, raise / ignore / warn behaviour) for interior, "
         "black, white, saturated, half-source, face and outside targets, on exactly representable and on decimal data. "
-        "(A full-strength theorem 'the enumeration always finds the extremes' is attempted separately in C06Exact.lean.)",
+        "C06Exact.lean proves the full-strength theorem range_exact: if every square system of the enumeration is uniquely solvable "
+        "and the target is reproducible, the reported ends ARE the least and greatest intensities over all in-bound solutions "
+        "(pivot lemma + induction on the number of free coordinates, any ordered field); Linalg.lean proves the Gauss-Jordan solve sound and complete.",
         "Trusted: Lean kernel; np.linalg.solve is modelled by exact Gauss-Jordan and compared, not verified; HiGHS only supplies "
         "untrusted dual hints; the in-gamut gate is C03's; float rounding is not modelled (decimal boundary targets are compared "
         "at 1e-6 of the range and may legitimately be rejected by the gate); hooks record candidate counts.",
         "5/C06"),
+    "C17": (
+        "Lean 4 proof (weak duality of the nearest-point programme; boundary hit; exact plane section by an explicit transport decomposition) + per-answer dual certificates and exact model",
+        "Theorems in lean/Dreye/Props/C17.lean prove for every dimension, cloud size and ordered field: the Lagrange dual value "
+        "bounds half the squared distance of EVERY hull point (so a point within delta of the dual value is nearest up to 2 delta); "
+        "for a polytope with the origin strictly inside the returned multiple is positive, on a facet, inside for all smaller "
+        "and outside for all larger multiples; every returned slice point is on the plane and on a segment of two cloud points; "
+        "and every point of conv(P) on the plane is a convex combination of the all-pairs intersection points (slice exact). "
+        "Every run evaluates the dual certificate exactly in Q on dreye.proj_B_to_hull's answers (multipliers from an auxiliary "
+        "quadprog call), compares alpha_for_B_with_P / B_with_P and the all-pairs slice with the exact model, and checks the "
+        "hull-edge branch of proj_P_to_simplex for soundness and completeness against the all-pairs points.",
+        "Trusted: Lean kernel; quadprog and qhull are engines (quadprog's answers are certificate-checked; qhull's facet equations "
+        "are taken as the definition of the polytope handed to dreye); the completeness check of the hull-edge branch is an LP "
+        "feasibility test with tolerance 1e-8 on float outputs (predicate evaluation, not a proof).",
+        "5/C17"),
+    "C12": (
+        "Lean 4 proof (common factor, maximum, totals, hue direction, contraction stays in a convex gamut) + exact model / predicate evaluation on dreye's output",
+        "Theorems in lean/Dreye/Props/C12.lean prove: intensity scaling multiplies every light-induced part by one factor, keeps "
+        "capture ratios, and makes the largest light-induced capture equal amax; chromatic scaling keeps totals, keeps the hue "
+        "direction from the neutral point contracting saturation by alpha, is the identity for alpha = 1, and every smaller "
+        "contraction of a point of a convex chromatic gamut (containing the neutral point) stays in it. Every run compares "
+        "gamut_l1_scaling with the exact model and evaluates on gamut_dist_scaling's output: totals kept, one common positive "
+        "alpha along the hue rays, all chromaticities inside the chromatic gamut and not all inside when pushed 1e-3 further, "
+        "identity when already inside, zero rows, dichromats, explicit neutral points, relative and absolute capture.",
+        "Trusted: Lean kernel; qhull (facets of the chromatic gamut) is the engine behind alpha: the boundary clause is checked "
+        "by LP feasibility at 1e-6 (qhull's planes are accurate to ~1e-7), not proved; sklearn normalize and the barycentric map "
+        "are those of C16; model tied to code by the per-run correspondence.",
+        "5/C12"),
 }
 
 NOT_YET = "check not built yet in this round of work (planned in DESIGN.md section 5); no claim is made"
